@@ -41,6 +41,30 @@ Theorem C10_invalid_has_error : forall idc p s,
 Proof. exact transform_invalid_has_error. Qed.
 Print Assumptions C10_invalid_has_error.
 
+(* ES5 15.10.4.1 on the flags (code as repaired by /repo 784edea): the constructor
+   accepts them iff they contain only g, i, m, each at most once *)
+Theorem C10_flags_es5 : forall l, parse_flags l <> None <-> (Forall gim l /\ NoDup l).
+Proof. exact parse_flags_es5. Qed.
+Print Assumptions C10_flags_es5.
+
+(* an unmatched ")" after any well-formed tree, whatever follows: ("", error) *)
+Theorem C10_unmatched_paren_invalid : forall idc r x, wf r = true ->
+  transform idc (print_js r ++ 41 :: x) = Some ([], true).
+Proof. exact transform_unmatched_paren. Qed.
+Print Assumptions C10_unmatched_paren_invalid.
+
+(* the error class of the constructor (code as repaired by /repo ef38bfe and
+   784edea): SyntaxError (5) for flags outside 15.10.4.1 whatever the pattern and
+   for an unmatched ")", TypeError (6) exactly for a well-formed tree that has
+   no engine spelling, no error before the engine for the portable subset *)
+Theorem C10_ctor_error_class : forall idc,
+  (forall pat fl, ~ (Forall gim fl /\ NoDup fl) -> ctor_class idc pat fl = 5) /\
+  (forall r x fl, wf r = true -> Forall gim fl -> NoDup fl -> ctor_class idc (print_js r ++ 41 :: x) fl = 5) /\
+  (forall r fl, wf r = true -> supported r = false -> Forall gim fl -> NoDup fl -> ctor_class idc (print_js r) fl = 6) /\
+  (forall r fl, wf r = true -> supported r = true -> Forall gim fl -> NoDup fl -> ctor_class idc (print_js r) fl = 0).
+Proof. exact ctor_class_cases. Qed.
+Print Assumptions C10_ctor_error_class.
+
 (* 15.10.6.2, any matcher: a non-global exec ignores lastIndex, leaves it alone
    on success and writes 0 on failure *)
 Theorem C10_exec_nonglobal : forall mt li s m li',
@@ -87,6 +111,14 @@ Theorem C10_split_limit : forall mt li s lim obs li',
   li' = li /\ exists a, obs = OZ (llen a) :: a /\ (0 <= lim -> llen a <= Z.max lim 1 /\ (0 < lim -> llen a <= lim)).
 Proof. exact split_limit. Qed.
 Print Assumptions C10_split_limit.
+
+(* otto's split on the empty subject is 15.5.4.14 step 11, for any engine and any
+   limit (code as repaired by /repo a84f554; given = a limit argument was passed) *)
+Theorem C10_split_empty_subject : forall mt li lim given,
+  (given = false -> lim <> 0) ->
+  split_model mt li [] lim given = split_spec mt li [] lim.
+Proof. exact split_empty_subject. Qed.
+Print Assumptions C10_split_empty_subject.
 
 (* otto's execRegExp is 15.10.6.2 whenever the search starts at the beginning
    of an ASCII subject (non-global expression, or lastIndex = 0), for any engine *)
@@ -144,6 +176,13 @@ Definition sample_unsupported : re :=
   RNcGroup (RSeq (RGroup (lit 97)) (RQuant (RGroup (RSeq (RLook true (lit 98)) (RBackref 1))) QPlus true)).
 Example C10_unsupported_hyp_met : wf sample_unsupported = true /\ supported sample_unsupported = false.
 Proof. vm_compute. split; reflexivity. Qed.
+
+Example C10_flags_hyp_met : parse_flags [103; 109; 105] <> None /\ parse_flags [103; 120] = None /\ parse_flags [105; 105] = None.
+Proof. vm_compute. repeat split. discriminate. Qed.
+Example C10_ctor_class_samples :
+  ctor_class (fun _ => false) [40] [] = 5 /\ ctor_class (fun _ => false) [97] [120] = 5 /\
+  ctor_class (fun _ => false) [40; 63; 61; 97; 41] [] = 6 /\ ctor_class (fun _ => false) [97] [103] = 0.
+Proof. vm_compute. repeat split. Qed.
 
 (* the ES5 matcher meets the three matcher hypotheses on a sample *)
 Example C10_matcher_hyps_met :
